@@ -124,7 +124,7 @@ impl RelayTransport {
             let num_segments = dm
                 .datagrams
                 .segment_size
-                .map_or(1, |ss| buf_out.len() / u16::from(ss) as usize);
+                .map_or(1, |ss| (buf_out.len() / u16::from(ss) as usize).max(1));
             let datagrams = dm.datagrams.take_segments(num_segments);
             let empty_after = dm.datagrams.contents.is_empty();
             let dm = RelayRecvDatagram {
